@@ -591,6 +591,13 @@ def suspender_scenarios(tier):
             out.append(mk(plan, f"pre-tripped,remove@{p}", {"sig1": 0, "sig2": 0}, [["sig_put", "sig1", 1], ["sus_install", "s1", 0]],
                           [{"at": p, "kind": "sus_remove", "arg": "s1"}, {"at": p + 2, "kind": "sus_remove", "arg": "s1"},
                            {"at": p + 3, "kind": "sig_put", "arg": "sig1", "value": 1}]))
+        # A'. paused while held by the tripped suspender; the suspender is removed / released while paused; then resume
+        for p in range(0, 3):
+            for dec in ("sus_remove:s1", "sig_put:sig1:0"):
+                sc = mk(plan, f"pre-tripped,pause@{p},{dec},resume", {"sig1": 0, "sig2": 0}, [["sig_put", "sig1", 1], ["sus_install", "s1", 0]],
+                        [{"at": p, "kind": "pause"}])
+                sc["decisions"] = [dec, "resume", "resume"]
+                out.append(sc)
         # B. trips while running, then release / removal; a removed suspender must not react any more
         for p in range(n):
             for d in ((2,) if quick else (1, 2, 4)):
